@@ -221,10 +221,10 @@ def _setter_clamps(setter) -> bool:
     from ..minieval import Evaluator, Obj
     try:
         for v in (-5, -1, 0, 1, 7):
-            me = Obj("PreProcessors", _indent=3)
+            me = Obj("PreProcessors")          # whatever the backing attribute is called: the setter creates it
             ev = Evaluator({})
             ev.invoke(setter.node, [me, v], {})
-            stored = [x for k, x in me.__dict__.items() if k not in ("_cls",) and isinstance(x, int)]
+            stored = [x for k, x in me.__dict__.items() if k not in ("_cls",) and isinstance(x, int) and not isinstance(x, bool)]
             if stored != [max(0, v)]:
                 return False
         return True
